@@ -73,7 +73,7 @@ type WorldSpec struct {
 	NameVariant  bool       `json:"name_variant,omitempty"`
 	ExtraFirst   bool       `json:"extra_first,omitempty"` // additional embedded certificates placed before the signer's certificate
 	EmbedCSCA    bool       `json:"embed_csca,omitempty"`  // the CSCA certificate is embedded as well
-	HashOrder    int        `json:"hash_order,omitempty"`  // order of the data group hash list: 0 ascending, 1 descending, 2 seeded shuffle
+	HashOrder    int        `json:"hash_order,omitempty"`  // order of the data group hash list: 0 ascending, 1 descending, 2 seeded shuffle, 3 one adjacent swap, 4 one entry moved to the end
 	Untrusted    bool       `json:"untrusted,omitempty"`      // CSCA not in the terminal's trust store
 	DecoyAnchors int        `json:"decoys,omitempty"`         // other countries' / same-SKI anchors in the store
 	SameSKIDecoy bool       `json:"same_ski_decoy,omitempty"` // same-country anchor with the same key identifier but another key, listed first
@@ -382,6 +382,17 @@ func Build(spec WorldSpec) *World {
 		for i := len(w.DGOrder) - 1; i > 0; i-- {
 			j := hr.Intn(i + 1)
 			w.DGOrder[i], w.DGOrder[j] = w.DGOrder[j], w.DGOrder[i]
+		}
+	case 3: // ascending except for one adjacent pair
+		if n := len(w.DGOrder); n > 1 {
+			i := core.NewRng(core.SubSeed(spec.Seed, "hash-order")).Intn(n - 1)
+			w.DGOrder[i], w.DGOrder[i+1] = w.DGOrder[i+1], w.DGOrder[i]
+		}
+	case 4: // ascending except for one entry appended at the end (a data group added to the profile later)
+		if n := len(w.DGOrder); n > 1 {
+			i := core.NewRng(core.SubSeed(spec.Seed, "hash-order")).Intn(n - 1)
+			x := w.DGOrder[i]
+			w.DGOrder = append(append(w.DGOrder[:i:i], w.DGOrder[i+1:]...), x)
 		}
 	}
 	lso := pki.LDSSecurityObject(spec.LDSVersion, spec.DGHash, w.DGHashes, w.DGOrder, "0108", "040000", spec.HashNoParams)
